@@ -52,7 +52,6 @@ class Profile:
 
 # classes excluded while the corresponding findings are open (see known_findings.json)
 DEFAULT_OFF = {
-    "pow",                 # `**` emitted verbatim
     "boolop_nonbool",      # `a or b` on non-bools
     "str_of_bool",         # str(flag) / f"{flag}"
     "retype",              # a name changes its type
@@ -178,6 +177,8 @@ class Gen:
         hs = [h for h in self.helpers if h[2] == "int" and h[0] != self.in_func]
         if hs and not self.no_calls:
             opts += [lambda: self.call(self.choice(hs), depth - 1)] * 2
+        if self.p.on("pow"):
+            opts += [lambda: (self.feat("int_pow"), f"(((({sub()}) % 7) - 3) ** {self.int_lit(0, 3)})")[1]]
         if self.p.on("floordiv_mod_neg"):
             nz = lambda: self.choice([str(v) for v in (-9, -4, -3, -2, -1, 1, 2, 3, 5, 7)])
             opts += [lambda: (self.feat("floordiv_signed"), f"({sub()} // {nz()})")[1], lambda: (self.feat("mod_signed"), f"({sub()} % {nz()})")[1]]
@@ -205,6 +206,8 @@ class Gen:
         if self.p.on("float_minmaxabs"):
             opts += [lambda: self.macro(lambda: f"abs({sub()})"), lambda: self.macro(lambda: f"max({sub()}, {sub()})"),
                      lambda: self.macro(lambda: f"min({sub()}, {sub()})")]
+        if self.p.on("pow"):
+            opts.append(lambda: (self.feat("float_pow"), f"({sub()} ** {self.choice(['2', '0', '1', '3'])})")[1])
         if self.p.on("int_truediv"):
             opts.append(lambda: (self.feat("int_truediv"), f"({self.e_int(depth - 1)} / {self.choice(['1', '2', '4', '8', '-2', '-4'])})")[1])
         if self.p.on("floordiv_mod_neg"):
